@@ -2082,6 +2082,11 @@ func (l *Lowerer) evalScalarArithmetic(op parser.TokenKind, left, right ir.Scala
 		return left.Bits * right.Bits
 	case parser.TokenSlash:
 		if right.Bits != 0 {
+			if left.Kind == ir.ScalarSint {
+				// signed components are carried as 64-bit two's complement:
+				// the division must be signed (truncating toward zero)
+				return uint64(int64(left.Bits) / int64(right.Bits))
+			}
 			return left.Bits / right.Bits
 		}
 		return 0
